@@ -774,6 +774,11 @@ def loosely_equal_default(a, b):
                 return -go(n.operand)
             if isinstance(n, pyast.Call) and isinstance(n.func, pyast.Attribute) and n.func.attr == "model_validate":
                 return go(n.args[0])
+            if isinstance(n, pyast.Call) and isinstance(n.func, pyast.Name) and n.func.id == "Field":
+                # C06/F9 rendering of an object inside a list: Field(default_factory=lambda: X) -> X
+                kw = {k.arg: k.value for k in n.keywords}
+                if set(kw) == {"default_factory"} and isinstance(kw["default_factory"], pyast.Lambda):
+                    return go(kw["default_factory"].body)
             raise ValueError(pyast.dump(n))
         return go(node)
 
@@ -1131,6 +1136,8 @@ def run(ctx):
         k_scenarios(ctx, var, tmp)
     finally:
         shutil.rmtree(tmp, ignore_errors=True)
+    # concrete failing inputs first (the report prints a bounded number of VIOLATION lines)
+    run.violations.sort(key=lambda v: not v["found_input"])
     for flag, seen in var.seen.items():
         if len(seen) > 1:
             run.broken("model variants", f"the code follows the patched model on some inputs and the unpatched one on others ({flag})")
